@@ -41,6 +41,7 @@ async fn settle(node: &Arc<Node>, log: &Arc<Mutex<Vec<Value>>>, want_handled: us
 /// adversarial schedule from the race model: a link established after the dying process took its links snapshot
 async fn late_link(idx: usize) -> Value {
     let sched = AsyncSched::install();
+        sched.only(&["proc."]);
     sched.set_free_run(true);
     let mut node = Node::new(format!("ll{}@127.0.0.1", idx % 5 + 1), COOKIE);
     if node.start(0).await.is_err() {
